@@ -11,7 +11,7 @@ cd "$WT" || exit 2
 git checkout -q -- . ; git apply --check "$M/patch.diff" || { echo "patch does not apply" | tee -a "$LOG"; exit 1; }
 git apply "$M/patch.diff"
 echo "== files: $(git diff --stat | tail -1)" >> "$LOG"
-CARGO_TARGET_DIR="$WT/target" python3 /tmp/mut/run_tests.py "$WT" >> "$LOG" 2>&1; T=$?
+CARGO_TARGET_DIR="$WT/target" python3 /verif/tools/worktree_tests.py "$WT" >> "$LOG" 2>&1; T=$?
 echo "== tests exit $T" >> "$LOG"
 CARGO_TARGET_DIR="$WT/target/alpha" cargo build -q --offline --features alpha,llvm-sys >> "$LOG" 2>&1; B=$?
 echo "== alpha build exit $B" >> "$LOG"
